@@ -22,20 +22,22 @@ import (
 // both next to each other), u0 u1 (unix, HTTP app), m1 (unix, admin endpoint).
 const (
 	nTCP  = 6
-	nUnix = 3
+	nUnix = 4
 	nAddr = nTCP + nUnix
 	adm0  = 3 // m0
 	rng0  = 4 // p0
 	rng1  = 5 // p1
+	ux0   = 6 // u0
 	adm1  = 8 // m1
+	pkt0  = 9 // v0: network unixpacket at the PATH OF u0 (unix network kinds share the file namespace)
 )
 
 const soReusePort = 0xf // SO_REUSEPORT on linux (all architectures caddy builds listen_unix.go for here)
 
-var addrNames = [nAddr]string{"t0", "t1", "t2", "m0", "p0", "p1", "u0", "u1", "m1"}
+var addrNames = [nAddr]string{"t0", "t1", "t2", "m0", "p0", "p1", "u0", "u1", "m1", "v0"}
 
 // httpAddrs are the addresses the HTTP app may listen on.
-var httpAddrs = []int{0, 1, 2, 4, 5, 6, 7}
+var httpAddrs = []int{0, 1, 2, 4, 5, 6, 7, 9}
 
 func isAdmin(a int) bool { return a == adm0 || a == adm1 }
 
@@ -144,6 +146,9 @@ func newEnv() (*env, error) {
 	}
 	for i := 0; i < nUnix; i++ {
 		e.upath[i] = filepath.Join(dir, fmt.Sprintf("u%d.sock", i))
+		if nTCP+i == pkt0 {
+			e.upath[i] = e.upath[ux0-nTCP] // same file, other network kind
+		}
 	}
 	os.Setenv("XDG_DATA_HOME", filepath.Join(dir, "data"))
 	os.Setenv("XDG_CONFIG_HOME", filepath.Join(dir, "config"))
@@ -175,12 +180,18 @@ func (e *env) listenAddr(a, gen int) string {
 
 func (e *env) poolKey(a int) string {
 	if isUnix(a) {
+		if a == pkt0 {
+			return "unixpacket/" + e.upath[a-nTCP]
+		}
 		return "unix/" + e.upath[a-nTCP]
 	}
 	return "tcp/127.0.0.1:" + strconv.Itoa(e.ports[a])
 }
 
 func (e *env) dial(a int, timeout time.Duration) (net.Conn, error) {
+	if a == pkt0 {
+		return net.DialTimeout("unixpacket", e.upath[a-nTCP], timeout)
+	}
 	if isUnix(a) {
 		return net.DialTimeout("unix", e.upath[a-nTCP], timeout)
 	}
@@ -198,7 +209,7 @@ func (e *env) addrOf(ln net.Listener) int {
 		}
 	case *net.UnixAddr:
 		for i, p := range e.upath {
-			if p == ad.Name {
+			if p == ad.Name && (ad.Net == "unixpacket") == (nTCP+i == pkt0) {
 				return nTCP + i
 			}
 		}
@@ -233,6 +244,9 @@ func classifyErr(err error) string {
 		return ansRefused
 	case errors.Is(err, syscall.ENOENT):
 		return ansNoEnt
+	case errors.Is(err, syscall.EPROTOTYPE):
+		// the socket file belongs to a listener of another unix network kind: nobody of ours listens
+		return ansRefused
 	case errors.Is(err, syscall.ECONNRESET), errors.Is(err, syscall.EPIPE):
 		return ansReset
 	case errors.Is(err, os.ErrDeadlineExceeded):
